@@ -1,8 +1,112 @@
 import MetadorModel.Py.DrvLib
-/-! Driver stub (to be filled in). -/
-open MetadorModel
+import MetadorModel.Model.Acl
+/-! Driver for the node-restriction model (C15). Paths are hex-encoded absolute / relative
+`/`-separated strings, flags a subset of the letters `r` (read_only) `l` (local_only)
+`s` (skel_only) or `-`.
 
-def step (s : Unit) : List String → Unit × String
+```
+table <current|legacy>          select the guard table                      -> ok
+node <abs> <g|d>                add a node to the fixed tree                -> ok
+start <abs> <flags>             start wrapper (no remembered parent)        -> ok
+chain <step>…                   steps: c:<prim>:<rel>  a:<prim>:<abs>  p  r:<flags>
+                                -> per step `<abs>|<flags>|<n remembered parents>` or `err:<u|v|o>`
+ops <op>…                       ACL verdict per operation on the node the last chain reached
+                                (`am:<m>` = attribute-manager method) -> string of R (refused) / P
+```
+-/
+open MetadorModel MetadorModel.Acl MetadorModel.Drv
+
+structure St where
+  table : AclTable := currentTable
+  tree : Tree := []
+  start : Option Wrapper := none
+  cur : Option Wrapper := none
+
+def segs (s : String) : Path := (s.splitOn "/").filter (· ≠ "")
+
+def parsePath (h : String) : Option Path := (unhexStr h).map segs
+
+def parseFlags (s : String) : Option Flags :=
+  if s == "-" then some {}
+  else if s.toList.all (fun c => c == 'r' || c == 'l' || c == 's') then
+    some ⟨s.toList.contains 'r', s.toList.contains 'l', s.toList.contains 's'⟩
+  else none
+
+def showFlags (f : Flags) : String :=
+  let s := (if f.ro then "r" else "") ++ (if f.loc then "l" else "") ++ (if f.skel then "s" else "")
+  if s.isEmpty then "-" else s
+
+def showPath (p : Path) : String := hexStr ("/" ++ "/".intercalate p)
+
+def parsePrim : String → Option Prim
+  | "getitem" => some .getitem | "get" => some .get | "items" => some .items
+  | "values" => some .values | "keys" => some .keys | "iter" => some .iter
+  | "visititems" => some .visititems | "query" => some .query
+  | "require_group" => some .requireGroup | "require_dataset" => some .requireDataset
+  | _ => none
+
+def parseStep (tok : String) : Option Step :=
+  match tok.splitOn ":" with
+  | ["p"] => some .parent
+  | ["r", f] => (parseFlags f).map .restrict
+  | ["c", p, rel] => do
+    let p ← parsePrim p
+    let rel ← parsePath rel
+    pure (.child p rel)
+  | ["a", p, path] => do
+    let p ← parsePrim p
+    let path ← parsePath path
+    pure (.abs p path)
+  | _ => none
+
+def parseSteps : List String → Option (List Step)
+  | [] => some []
+  | t :: ts => do
+    let s ← parseStep t
+    let r ← parseSteps ts
+    pure (s :: r)
+
+def showErr : NavErr → String
+  | .unsupported => "err:u" | .value => "err:v" | .other => "err:o"
+
+def showW (w : Wrapper) : String := s!"{showPath w.path}|{showFlags w.flags}|{w.lps.length}"
+
+def runChain (t : AclTable) (T : Tree) : List Step → Wrapper → List String → List String × Option Wrapper
+  | [], w, acc => (acc.reverse, some w)
+  | s :: ss, w, acc =>
+    match Acl.step t T w s with
+    | .error e => ((showErr e :: acc).reverse, none)
+    | .ok w' => runChain t T ss w' (showW w' :: acc)
+
+def opLetter (t : AclTable) (T : Tree) (w : Wrapper) (op : String) : Char :=
+  if op.startsWith "abs:" then (if t.absGuardLocal && w.flags.loc then 'V' else 'P')
+  else if op.startsWith "am:" then
+    (if t.attrMethodRefused w.flags (op.drop 3).toString then 'R' else 'P')
+  else (if t.refusesOn (T.kind w.path != some false) op w.flags then 'R' else 'P')
+
+def step (s : St) : List String → St × String
+  | ["table", "current"] => ({ s with table := currentTable }, "ok")
+  | ["table", "legacy"] => ({ s with table := Legacy.table }, "ok")
+  | ["table", "legacy-fallback"] => ({ s with table := Legacy.tableFallback }, "ok")
+  | ["node", p, k] =>
+    match parsePath p, k with
+    | some p, "g" => ({ s with tree := s.tree ++ [(p, true)] }, "ok")
+    | some p, "d" => ({ s with tree := s.tree ++ [(p, false)] }, "ok")
+    | _, _ => (s, "bad-op")
+  | ["start", p, f] =>
+    match parsePath p, parseFlags f with
+    | some p, some f => ({ s with start := some ⟨p, f, []⟩, cur := some ⟨p, f, []⟩ }, "ok")
+    | _, _ => (s, "bad-op")
+  | "chain" :: toks =>
+    match s.start, parseSteps toks with
+    | some w, some steps =>
+      let (out, cur) := runChain s.table s.tree steps w []
+      ({ s with cur := cur }, if out.isEmpty then "-" else " ".intercalate out)
+    | _, _ => (s, "bad-op")
+  | "ops" :: ops =>
+    match s.cur with
+    | some w => (s, String.ofList (ops.map (opLetter s.table s.tree w)))
+    | none => (s, "none")
   | _ => (s, "bad-op")
 
-def main : IO Unit := Drv.run () step
+def main : IO Unit := Drv.run ({} : St) step
